@@ -163,7 +163,7 @@ def _drive(rep: Report, tier: str, seed: int, P: Any, d: Path, futs: dict[str, A
         phase[name] = round(time.time() - t_phase, 1)
         t_phase = time.time()
 
-    batch = P.Batch()
+    batch = P.Batch(chunk=5000 if quick else 12000, jobs=4 if quick else 6)
     rnd = random.Random(seed)
     lmax = 3 if quick else 4
     max_n = 5 if quick else 6
@@ -182,8 +182,13 @@ def _drive(rep: Report, tier: str, seed: int, P: Any, d: Path, futs: dict[str, A
             written[levels] = P.write_log(P.spec_enum(levels), d, "e" + "".join(x[0] for x in levels) + f"_{len(levels)}")
         return written[levels]
 
+    metas: dict[tuple[str, str, str, str], dict[str, Any]] = {}
+
     def meta(api: str, c: Any, origin: str) -> dict[str, Any]:
-        return {"api": api, "container": c.kind, "prefix": c.prefix, "origin": origin}
+        k = (api, c.kind, c.prefix, origin)
+        if k not in metas:
+            metas[k] = {"api": api, "container": c.kind, "prefix": c.prefix, "origin": origin}
+        return metas[k]
 
     # ---- 2a. exhaustive family
     # quick: single operations on the writer's own .zst; every (first, second) pair on the plain copy
@@ -275,7 +280,7 @@ def _drive(rep: Report, tier: str, seed: int, P: Any, d: Path, futs: dict[str, A
     mark("wait_for_model_checking")
     _sres, behs = futs["sim"].result()
     _ares, abehs = futs["asis_sim"].result()
-    sim_tids: list[tuple[int, list[dict[str, Any]]]] = []
+    sim_tids: list[tuple[int, list[dict[str, Any]], Any, Any]] = []
     agree_asis = [0, 0]
     for which, bs in (("design", behs), ("asis", abehs)):
         for b in bs:
@@ -293,7 +298,8 @@ def _drive(rep: Report, tier: str, seed: int, P: Any, d: Path, futs: dict[str, A
                 tid = batch.add(w, got, meta("reader", c0, "tlc-simulate"))
                 want_all = (opened[:1] if opened else []) + want_ops
                 got_all = [got["open"]] + [x["res"] for x in got["ops"]]
-                sim_tids.append((tid, [{"design": a, "code": g} for a, g in zip(want_all, got_all) if a != g]))
+                sim_tids.append((tid, [{"design": a, "code": g} for a, g in zip(want_all, got_all) if a != g],
+                                 w.spec, [x["op"] for x in got["ops"]]))
             else:
                 agree_asis[1] += 1
                 got_all = [got["open"]] + [x["res"] for x in got["ops"]]
@@ -305,48 +311,32 @@ def _drive(rep: Report, tier: str, seed: int, P: Any, d: Path, futs: dict[str, A
                                                 "test (informational: identical on the unrepaired tree)"}
 
     mark("spec_to_code_replay")
-    # ---- 4. code -> spec: TLC validates every session
-    verdicts, results = P.validate(batch, chunk=7000 if quick else 15000, jobs=6)
-    mark("tlc_trace_validation")
-    for res in results:
+    # ---- 4. code -> spec: TLC validates every session (chunks were streamed to TLC while driving)
+    batch.finish()
+    mark("tlc_trace_validation_tail")
+    for res in batch.results:
         rep.add_tlc(res, "Trace_Penlog batch")
-    rep.traces = len(batch.traces)
-    rep.evaluations = sum(len(t["ops"]) + 1 for t in batch.traces)
-    seen_keys: set[str] = set()
-    unspecified = 0
-    for t, m in zip(batch.traces, batch.meta):
-        key = json.dumps([m.get("spec"), m["container"], m["prefix"], m["api"], [o["op"] for o in t["ops"]],
-                          m.get("argv")], sort_keys=True)
-        if key in seen_keys:
-            continue
-        seen_keys.add(key)
-        unspecified += verdicts[t["id"]][3]
-        plain_fwd = len(t["ops"]) == 1 and t["ops"][0]["op"]["mode"] == "fwd" and t["ops"][0]["op"]["off"] == 0 \
-            and t["ops"][0]["op"]["p"] == 8
-        if m["n"] > 0 and (not plain_fwd or (m["container"], m["prefix"]) != ("zst", "all")):
-            rep.nontrivial.add(key)
-    rep.extra["distinct_sessions"] = len(seen_keys)
-    rep.extra["unspecified_operations"] = unspecified
-    rep.extra["content_pairs_compared_by_tlc"] = sum(len(t["content"]) for t in batch.traces)
-    rep.extra["origins"] = {}
-    for m in batch.meta:
-        rep.extra["origins"][m["origin"]] = rep.extra["origins"].get(m["origin"], 0) + 1
+    rep.traces = batch.n
+    rep.evaluations = batch.ops
+    rep.nontrivial = set(batch.nontrivial)
+    rep.extra["distinct_sessions"] = len(batch.keys)
+    rep.extra["unspecified_operations"] = batch.unspecified
+    rep.extra["content_pairs_compared_by_tlc"] = batch.content_pairs
+    rep.extra["origins"] = batch.origins
     # drift: design layer and code disagree although the contract is satisfied
     drift = 0
-    for tid, diffs in sim_tids:
-        if diffs and verdicts[tid][0] == "ok":
+    for tid, diffs, spec, ops in sim_tids:
+        if diffs and batch.label(tid) == "ok":
             drift += 1
-            rep.drift.append({"spec": batch.meta[tid]["spec"], "ops": [o["op"] for o in batch.traces[tid]["ops"]],
-                              "differences": diffs[:3]})
+            rep.drift.append({"spec": spec, "ops": ops, "differences": diffs[:3]})
     rep.extra["spec_to_code_replayed"] = len(sim_tids)
     rep.extra["spec_to_code_drift"] = drift
     # violations, one per distinct signature (smallest case first), counts kept
     order = {"zst/all": 0}
-    bad = [(t, m) for t, m in zip(batch.traces, batch.meta) if verdicts[t["id"]][0] != "ok"]
-    bad.sort(key=lambda tm: (order.get(f"{tm[1]['container']}/{tm[1]['prefix']}", 1), tm[1]["n"], len(tm[0]["ops"])))
+    bad = sorted(batch.bad, key=lambda x: (order.get(f"{x[1]['container']}/{x[1]['prefix']}", 1), x[1]["n"],
+                                           len(x[0]["ops"]), x[0]["id"]))
     counts: dict[str, int] = {}
-    for t, m in bad:
-        v = verdicts[t["id"]]
+    for t, m, v in bad:
         sig = _sig(m, t, v)
         k = v[0] + " " + json.dumps(sig, sort_keys=True)
         counts[k] = counts.get(k, 0) + 1
@@ -358,12 +348,12 @@ def _drive(rep: Report, tier: str, seed: int, P: Any, d: Path, futs: dict[str, A
                                 "failing_op_index": v[1], "observed": failing["res"], "origin": m["origin"]})
     rep.extra["violating_sessions"] = len(bad)
     rep.extra["violation_counts"] = dict(sorted(counts.items(), key=lambda kv: -kv[1])[:40])
-    for t, m in list(zip(batch.traces, batch.meta))[:: max(1, len(batch.traces) // 6)]:
-        rep.sample({"log": [r["prio"] for r in batch.logs[t["lg"] - 1]][:8], "container": m["container"],
+    for t, m, label in batch.samples[:: max(1, len(batch.samples) // 6)]:
+        rep.sample({"log": [r["prio"] for r in m["log"]], "container": m["container"],
                     "prefix": m["prefix"], "api": m["api"], "argv": m.get("argv"),
                     "ops": [{"op": o["op"], "res": o["res"] if o["res"]["t"] != "Seq" else
                              {"t": "Seq", "ids": o["res"]["ids"][:8]}} for o in t["ops"][:3]],
-                    "verdict": verdicts[t["id"]][0]})
+                    "verdict": label})
     rep.exhaustive = True
     rep.extra["exhaustive_space"] = (
         f"logs of length 0..{lmax} over 3 levels x the {len(ops_all)} operations of the model on a fresh reader "
@@ -374,38 +364,34 @@ def _drive(rep: Report, tier: str, seed: int, P: Any, d: Path, futs: dict[str, A
           "and hr argv spellings are sampled")
 
     # ---- 5. binding self-tests
-    _selftest(rep, P, d, batch, verdicts, get_enum)
+    _selftest(rep, P, d, batch, get_enum)
     mark("selftest")
     rep.extra["phase_wall_s"] = phase
     return rep
 
 
-def _selftest(rep: Report, P: Any, d: Path, batch: Any, verdicts: dict[int, Any], get_enum: Any) -> None:
+def _selftest(rep: Report, P: Any, d: Path, batch: Any, get_enum: Any) -> None:
     """(i) corrupted accepted traces must be rejected; (ii) mutants of a reader must be rejected."""
-    cand = [t for t in batch.traces if verdicts[t["id"]][0] == "ok" and t["ops"] and t["ops"][-1]["res"]["t"] == "Seq"
-            and len(t["ops"][-1]["res"]["ids"]) >= 2 and t["ops"][-1]["op"]["mode"] in ("fwd", "head")
-            and t["ops"][-1]["op"]["p"] >= 0]
-    cont = [t for t in batch.traces if verdicts[t["id"]][0] == "ok" and t["content"] and t["content"][0]["w"]]
-    lens = [t for t in batch.traces if verdicts[t["id"]][0] == "ok" and t["ops"] and t["ops"][-1]["res"]["t"] == "Len"]
-    if not cand or not cont or not lens:
+    t, tl, tc = batch.accepted_seq, batch.accepted_len, batch.accepted_content
+    if t is None or tl is None or tc is None:
         raise Machinery("no accepted session to run the binding self-test on "
-                        f"(seq={len(cand)} content={len(cont)} len={len(lens)})")
-    sb = P.Batch()
+                        f"(seq={t is not None} len={tl is not None} content={tc is not None})")
+    sb = P.Batch(chunk=10**9, jobs=1)
     labels = []
+    m_self = {"api": "selftest", "container": "-", "prefix": "-", "origin": "selftest"}
 
-    def corrupt(t: dict[str, Any], fn: Any, label: str) -> None:
-        t2 = json.loads(json.dumps(t))
+    def corrupt(t0: dict[str, Any], fn: Any, label: str) -> None:
+        t2 = json.loads(json.dumps({k: v for k, v in t0.items() if k != "_log"}))
         fn(t2)
-        sb.add_raw(batch.logs[t["lg"] - 1], t2, {"api": "selftest"})
+        sb.add(t0["_log"], t2, m_self)
         labels.append(label)
 
-    t = cand[0]
     corrupt(t, lambda x: x["ops"][-1]["res"]["ids"].reverse(), "order swapped")
     corrupt(t, lambda x: x["ops"][-1]["res"]["ids"].pop(), "last record dropped")
     corrupt(t, lambda x: x["ops"][-1]["res"]["ids"].append(x["ops"][-1]["res"]["ids"][0]), "record repeated")
     corrupt(t, lambda x: x["ops"][-1]["res"]["ids"].__setitem__(0, 10**6), "record content differs")
-    corrupt(lens[0], lambda x: x["ops"][-1]["res"].__setitem__("n", x["ops"][-1]["res"]["n"] + 1), "len off by one")
-    corrupt(cont[0], lambda x: x["content"][0]["w"].__setitem__(0, x["content"][0]["w"][0] + 1), "one code point changed")
+    corrupt(tl, lambda x: x["ops"][-1]["res"].__setitem__("n", x["ops"][-1]["res"]["n"] + 1), "len off by one")
+    corrupt(tc, lambda x: x["content"][0]["w"].__setitem__(0, x["content"][0]["w"][0] + 1), "one code point changed")
     corrupt(t, lambda x: x.__setitem__("open", {"t": "Exc", "cls": "ValueError"}), "open failed")
 
     # (ii) hand-written mutants of the reader (Appendix B): strict '<' in the priority filter,
@@ -423,15 +409,16 @@ def _selftest(rep: Report, P: Any, d: Path, batch: Any, verdicts: dict[int, Any]
 
     w = get_enum(("CRITICAL", "NOTICE", "TRACE"))
     c0 = P.Container(w, "zst", "all", d)
-    sb.add(w, P.run_reader_session(c0, [P.op("fwd", 5)], reader_cls=StrictFilterReader), {"api": "mutant"})
+    m_mut = {"api": "mutant", "container": "zst", "prefix": "all", "origin": "selftest"}
+    sb.add(w, P.run_reader_session(c0, [P.op("fwd", 5)], reader_cls=StrictFilterReader), m_mut)
     labels.append("mutant: '<' instead of '<=' in the priority filter")
-    sb.add(w, P.run_reader_session(c0, [P.op("fwd", 8, 0, 1)], reader_cls=OffByOneReader), {"api": "mutant"})
+    sb.add(w, P.run_reader_session(c0, [P.op("fwd", 8, 0, 1)], reader_cls=OffByOneReader), m_mut)
     labels.append("mutant: offset table off by one")
-    v, _ = P.validate(sb, jobs=1)
-    accepted = [labels[i] for i in range(len(labels)) if v[i][0] == "ok"]
+    sb.finish()
+    accepted = [labels[i] for i in range(len(labels)) if sb.label(i) == "ok"]
     if accepted:
         raise Machinery(f"binding self-test: corrupted traces / mutants accepted by TLC: {accepted}")
-    rep.extra["binding_selftest"] = {labels[i]: v[i][0] for i in range(len(labels))}
+    rep.extra["binding_selftest"] = {labels[i]: sb.label(i) for i in range(len(labels))}
 
 
 def replay(path: str) -> int:
@@ -442,11 +429,11 @@ def replay(path: str) -> int:
     d = P.workdir()
     bad = 0
     try:
-        batch = P.Batch()
+        batch = P.Batch(chunk=10**9, jobs=1)
         rows = []
         for i, v in enumerate(data["violations"]):
             det = v["detail"]
-            if "spec" not in det:
+            if "spec" not in det or det["spec"] is None:
                 continue
             w = P.write_log(det["spec"], d, f"replay{i}")
             c = P.Container(w, det["container"], det["prefix"], d)
@@ -454,14 +441,16 @@ def replay(path: str) -> int:
                 sess = P.run_hr_session(c, det["ops"][0], argv=det.get("argv"), content=True)
             else:
                 sess = P.run_reader_session(c, det["ops"], content=True)
-            tid = batch.add(w, sess, {"api": det["api"], "container": det["container"], "prefix": det["prefix"]})
-            rows.append((tid, det, sess))
+            tid = batch.add(w, sess, {"api": det["api"], "container": det["container"], "prefix": det["prefix"],
+                                      "origin": "replay"})
+            rows.append((tid, det, sess, w.n))
         if rows:
-            verdicts, _ = P.validate(batch, jobs=1)
-            for tid, det, sess in rows:
-                vd = verdicts[tid]
+            batch.finish()
+            verdicts = {t["id"]: v for t, _m, v in batch.bad}
+            for tid, det, sess, n in rows:
+                vd = verdicts.get(tid, ("ok", 0, "", 0))
                 got = [o["res"] if o["res"]["t"] != "Seq" else o["res"]["ids"][:12] for o in sess["ops"]]
-                print(f"replay api={det['api']} container={det['container']}/{det['prefix']} n={len(batch.logs[batch.traces[tid]['lg'] - 1])} "
+                print(f"replay api={det['api']} container={det['container']}/{det['prefix']} n={n} "
                       f"ops={[(o['mode'], o['p'], o['n'], o['off']) for o in det['ops']]} argv={det.get('argv')} "
                       f"open={sess['open']} results={got} verdict={vd[0]} op#{vd[1]} {vd[2]}")
                 bad += vd[0] != "ok"
